@@ -20,8 +20,8 @@ pub enum Outcome {
     NotComparable,
 }
 
-const SYMS: [&str; 18] = [
-    "|", "||", "&&", "==", "<", ">=", ".", "!", "[0]", "[*]", "[]", "[?x]", ".*", "[1:]", "[::-1]", ".f(@)", ".[y]", ".{k:y}",
+const SYMS: [&str; 21] = [
+    "!=", ">", "<=", "|", "||", "&&", "==", "<", ">=", ".", "!", "[0]", "[*]", "[]", "[?x]", ".*", "[1:]", "[::-1]", ".f(@)", ".[y]", ".{k:y}",
 ];
 const OPERANDS: [&str; 8] = ["a", "b", "c", "d", "e", "g", "h", "i"];
 
@@ -52,7 +52,7 @@ pub fn soup_with(seq: &[usize], rot: Option<usize>) -> String {
         let sym = SYMS[k];
         match sym {
             "!" => pending += 1,
-            "|" | "||" | "&&" | "==" | "<" | ">=" => {
+            "|" | "||" | "&&" | "==" | "<" | ">=" | "!=" | ">" | "<=" => {
                 body.push(' ');
                 body.push_str(sym);
                 body.push(' ');
@@ -282,7 +282,15 @@ pub fn run(args: &Args) {
     let strict = Opts::strict();
     for n in 0..args.n {
         let mut rng = Rng::derive(args.seed, args.shard + 2000, n);
-        if n % 2 == 0 {
+        if n % 512 == 6 {
+            // many small expressions side by side (nothing deep): the tree is the reference's, whatever the count
+            // (comparing trees several hundred operands wide costs about a second each: a few dozen per shard)
+            let text = refimpl::sentence::wide_case_upto(&mut rng, 260);
+            let (o, _) = compare_tree(&mut rep, &text, "wide");
+            if o != Outcome::NotComparable {
+                rep.nontrivial(fnv(text.as_bytes()));
+            }
+        } else if n % 2 == 0 {
             let mut parts = vec![];
             let budget = 4 + rng.below(16) as i32;
             SentenceGen::new(&mut rng, budget).expression(&mut parts);
